@@ -160,7 +160,7 @@ def img_down(doc, version, src_cells=True):
 
 
 # ================================================================================================ rpms
-def rpms_down(doc, version):
+def rpms_down(doc, version, upper=False, suffix=False):
     """doc: current-format rpms document.  <= 0.3: section `manifest`, entry key `type` with "package" for binary RPMs
     instead of `category`, source RPMs filed once per variant under arch "src" (srpm nevra -> {path, sigkey}) and not
     repeated next to their binaries; < 1.1 no header type; < 0.3 no compose date/respin"""
@@ -174,11 +174,12 @@ def rpms_down(doc, version):
             for arch, srpms in arches.items():
                 for srpm, pkgs in srpms.items():
                     for nevra, data in pkgs.items():
+                        sk = data["sigkey"].upper() if (upper and data["sigkey"]) else data["sigkey"]     # keys were not yet case-folded
                         if data["category"] == "source":
-                            man.setdefault(variant, {}).setdefault("src", {})[srpm] = {"path": data["path"], "sigkey": data["sigkey"]}
+                            man.setdefault(variant, {}).setdefault("src", {})[srpm] = {"path": data["path"], "sigkey": sk}
                         else:
-                            man.setdefault(variant, {}).setdefault(arch, {}).setdefault(srpm, {})[nevra] = {
-                                "path": data["path"], "sigkey": data["sigkey"],
+                            man.setdefault(variant, {}).setdefault(arch, {}).setdefault(srpm, {})[nevra + (".rpm" if suffix else "")] = {
+                                "path": data["path"], "sigkey": sk,
                                 "type": "package" if data["category"] == "binary" else data["category"]}
         d["payload"]["manifest"] = man
     if t < (0, 3):
